@@ -60,13 +60,15 @@ def gen(ch, tier):
                                    max_samples=12 if big else 8, large_fast=0.12)
     return {"scenario": scn,
             "schedules": [world.gen_schedule(ch.sub(f"sched{i}")) for i in range(k)],
-            "with_cat": True, "real_pool_probe": ch.coin(0.25)}
+            "with_cat": True, "real_pool_probe": ch.coin(0.25),
+            # "repeated in one process": half of the cases re-use ONE sampler object for every execution
+            "reuse_sampler": ch.coin(0.5)}
 
 
-def _workload(scn, continuum, dissim, with_cat):
+def _workload(scn, continuum, dissim, with_cat, shared_sampler=None):
     def work():
         np.random.seed(scn["np_seed"])
-        sampler = world.build_sampler(scn["sampler"])
+        sampler = shared_sampler if shared_sampler is not None else world.build_sampler(scn["sampler"])
         g = continuum.compute_gamma(**world.gamma_kwargs(scn, dissim, sampler))
         vals = {"observed": common.fval(g.observed_disorder),
                 "chance": [common.fval(a.disorder) for a in g.chance_alignments],
@@ -113,7 +115,8 @@ def run(case):
     scn = case["scenario"]
     continuum = world.build_continuum(scn["continuum"])
     dissim = world.build_dissim(scn["dissim"])
-    work = _workload(scn, continuum, dissim, case.get("with_cat", True))
+    shared = world.build_sampler(scn["sampler"]) if case.get("reuse_sampler") else None
+    work = _workload(scn, continuum, dissim, case.get("with_cat", True), shared)
     stats, keys, violations = {}, {"schedules": [], "scenarios": [], "completion_orders": [], "nontrivial": []}, []
     events = []
     scn_d = digest(scn)
